@@ -618,3 +618,71 @@ theorem pushMapOps_small (ext : Ext) : ∀ (ops : SMapOps) (offs : List Int) (ks
 end
 
 end SaModel.Build
+
+/-! ### schemas without view types: `ViewSmall` is automatic -/
+
+namespace SaModel.Build
+open SaModel SaModel.Spec
+open SaModel.Lemmas.C03 (ViewSmall ViewSmallL)
+
+mutual
+/-- the builder tree contains no bytes-view builder (a property of the schema: invariant under `take`) -/
+def NoView : B → Prop
+  | .bytesView _ _ _ _ _ => False
+  | .list _ _ _ _ _ el => NoView el
+  | .fixedSizeList _ _ _ _ _ _ el => NoView el
+  | .map _ _ _ _ ks vs => NoView ks ∧ NoView vs
+  | .struct _ _ _ fs _ _ _ => NoViewL fs
+  | .dictionary _ idx vals _ => NoView idx ∧ NoView vals
+  | .union _ fs _ _ _ => NoViewL fs
+  | _ => True
+def NoViewL : BL → Prop
+  | .nil => True
+  | .cons b _ r => NoView b ∧ NoViewL r
+end
+
+mutual
+theorem NoView_takeRest : ∀ (b : B), NoView (takeRest b) ↔ NoView b
+  | .null _ _ => by simp [takeRest, NoView]
+  | .unknownVariant _ => by simp [takeRest, NoView]
+  | .leaf _ _ _ _ => by simp [takeRest, NoView]
+  | .bytes _ _ _ _ _ => by simp [takeRest, NoView]
+  | .bytesView _ _ _ _ _ => by simp [takeRest, NoView]
+  | .fixedSizeBinary _ _ _ _ _ _ => by simp [takeRest, NoView]
+  | .list _ _ _ _ _ el => by simp only [takeRest, NoView]; exact NoView_takeRest el
+  | .fixedSizeList _ _ _ _ _ _ el => by simp only [takeRest, NoView]; exact NoView_takeRest el
+  | .map _ _ _ _ ks vs => by simp only [takeRest, NoView]; rw [NoView_takeRest ks, NoView_takeRest vs]
+  | .struct _ _ _ fs _ _ _ => by simp only [takeRest, NoView]; exact NoViewL_takeRest fs
+  | .dictionary _ idx vals _ => by simp only [takeRest, NoView]; rw [NoView_takeRest idx, NoView_takeRest vals]
+  | .union _ fs _ _ _ => by simp only [takeRest, NoView]; exact NoViewL_takeRest fs
+theorem NoViewL_takeRest : ∀ (fs : BL), NoViewL (takeRestAll fs) ↔ NoViewL fs
+  | .nil => by simp [takeRestAll, NoViewL]
+  | .cons b _ r => by simp only [takeRestAll, NoViewL]; rw [NoView_takeRest b, NoViewL_takeRest r]
+end
+
+theorem NoView.of_takeRest {b b' : B} (h : takeRest b' = takeRest b) (hs : NoView b) : NoView b' :=
+  (NoView_takeRest b').1 (h ▸ (NoView_takeRest b).2 hs)
+
+mutual
+theorem NoView.small : ∀ (b : B), NoView b → ViewSmall b
+  | .null _ _, _ => by simp [ViewSmall]
+  | .unknownVariant _, _ => by simp [ViewSmall]
+  | .leaf _ _ _ _, _ => by simp [ViewSmall]
+  | .bytes _ _ _ _ _, _ => by simp [ViewSmall]
+  | .bytesView _ _ _ _ _, h => by simp [NoView] at h
+  | .fixedSizeBinary _ _ _ _ _ _, _ => by simp [ViewSmall]
+  | .list _ _ _ _ _ el, h => by simp only [NoView] at h; simp only [ViewSmall]; exact NoView.small el h
+  | .fixedSizeList _ _ _ _ _ _ el, h => by simp only [NoView] at h; simp only [ViewSmall]; exact NoView.small el h
+  | .map _ _ _ _ ks vs, h => by
+    simp only [NoView] at h; simp only [ViewSmall]; exact ⟨NoView.small ks h.1, NoView.small vs h.2⟩
+  | .struct _ _ _ fs _ _ _, h => by simp only [NoView] at h; simp only [ViewSmall]; exact NoViewL.small fs h
+  | .dictionary _ idx vals _, h => by
+    simp only [NoView] at h; simp only [ViewSmall]; exact ⟨NoView.small idx h.1, NoView.small vals h.2⟩
+  | .union _ fs _ _ _, h => by simp only [NoView] at h; simp only [ViewSmall]; exact NoViewL.small fs h
+theorem NoViewL.small : ∀ (fs : BL), NoViewL fs → ViewSmallL fs
+  | .nil, _ => by simp [ViewSmallL]
+  | .cons b _ r, h => by
+    simp only [NoViewL] at h; simp only [ViewSmallL]; exact ⟨NoView.small b h.1, NoViewL.small r h.2⟩
+end
+
+end SaModel.Build
